@@ -2,13 +2,17 @@
 package main
 
 import (
+	"bufio"
+	"bytes"
 	"fmt"
 	"math"
 	"math/big"
 	"os"
+	"os/exec"
 	"strconv"
 	"strings"
 	"time"
+	_ "time/tzdata" // embedded zone database: real DST zones and TZ= child processes without system zoneinfo
 
 	"github.com/brocaar/lorawan"
 	"github.com/brocaar/lorawan/airtime"
@@ -119,12 +123,62 @@ var lastGPS = "none"
 // The property is about instants: the Location a time.Time value carries must not matter.
 var zoneOffsets = []int{-14 * 3600, -12 * 3600, -5 * 3600, -1, 1, 3600, 5*3600 + 1800, 12*3600 + 2700, 14 * 3600}
 
+// real zones with daylight saving (repeated and skipped local hours; Lord Howe shifts by 30 minutes)
+var dstZoneNames = []string{"Europe/Amsterdam", "America/New_York", "Australia/Lord_Howe", "Africa/Casablanca"}
+
+var zoneCache []*time.Location
+
+func dstZones() []*time.Location {
+	var ls []*time.Location
+	for _, n := range dstZoneNames {
+		l, err := time.LoadLocation(n)
+		if err != nil {
+			panic("zone database: " + err.Error())
+		}
+		ls = append(ls, l)
+	}
+	return ls
+}
+
 func zones() []*time.Location {
+	if zoneCache != nil {
+		return zoneCache
+	}
 	ls := []*time.Location{time.UTC}
 	for _, o := range zoneOffsets {
 		ls = append(ls, time.FixedZone(fmt.Sprintf("fixed%+d", o), o))
 	}
-	return append(ls, time.Local)
+	ls = append(ls, time.Local)
+	zoneCache = append(ls, dstZones()...)
+	return zoneCache
+}
+
+// transitions of a zone within [from, to): instants at which the UTC offset changes, with the offsets before and after.
+type transition struct {
+	at         time.Time
+	before, to int
+}
+
+func transitions(l *time.Location, from, to time.Time) []transition {
+	var out []transition
+	off := func(t time.Time) int { _, o := t.In(l).Zone(); return o }
+	for t := from; t.Before(to); t = t.Add(6 * time.Hour) {
+		a, b := off(t), off(t.Add(6*time.Hour))
+		if a == b {
+			continue
+		}
+		lo, hi := t.Unix(), t.Add(6*time.Hour).Unix() // off(lo) = a, off(hi) = b
+		for hi-lo > 1 {
+			mid := (lo + hi) / 2
+			if off(time.Unix(mid, 0)) == a {
+				lo = mid
+			} else {
+				hi = mid
+			}
+		}
+		out = append(out, transition{time.Unix(hi, 0).UTC(), a, b})
+	}
+	return out
 }
 
 func locName(t time.Time) string {
@@ -254,7 +308,7 @@ func gpsCases(s *cases.Set, r *cq.RNG, thorough bool) {
 				prelude(ord, t, d)
 				durCaseO(s, d, "gps-dur-leap-call-order", ord)
 				prelude(ord, t, d)
-				utcCaseO(s, t.In(zones()[r.Intn(len(zoneOffsets)+2)]), "gps-utc-leap-call-order", false, ord)
+				utcCaseO(s, t.In(zones()[r.Intn(len(zones()))]), "gps-utc-leap-call-order", false, ord)
 			}
 		}
 		// GPS -> UTC strictly increasing next to the inserted second (pairs that do not leave it: UTC repeats 00:00:00 there),
@@ -296,6 +350,37 @@ func gpsCases(s *cases.Set, r *cq.RNG, thorough bool) {
 		}
 	}
 	s.Exhaustive("gps locations: for each of the 18 leap steps S and each of the zones -14h,-12h,-5h,-1s,+1s,+1h,+5:30,+12:45,+14h and time.Local: S-1ns, S, S+1s, S-offset-1ns, S-offset presented in that zone (Coq cases); every probed instant additionally compared across all zones on the Go side")
+	// real DST zones: dense through every transition (skipped and repeated local hour) of some years, presented in that zone
+	years := []int{2016, 2021}
+	if thorough {
+		years = nil
+		for y := 2005; y <= 2026; y++ {
+			years = append(years, y)
+		}
+	}
+	nTr := 0
+	for _, z := range dstZones() {
+		for _, y := range years {
+			for _, tr := range transitions(z, time.Date(y, 1, 1, 0, 0, 0, 0, time.UTC), time.Date(y+1, 1, 1, 0, 0, 0, 0, time.UTC)) {
+				nTr++
+				shift := time.Duration(tr.before-tr.to) * time.Second // > 0: local clock set back, the local hour repeats
+				if shift < 0 {
+					shift = -shift
+				}
+				var pts []time.Duration
+				for m := -70; m <= 70; m += 10 {
+					pts = append(pts, time.Duration(m)*time.Minute)
+				}
+				pts = append(pts, -time.Nanosecond, time.Nanosecond, -shift, -shift-time.Nanosecond, shift-time.Nanosecond, shift)
+				for _, o := range pts {
+					t := tr.at.Add(o).In(z)
+					jobs = append(jobs, func() { utcCase(s, t, "gps-utc-dst-transition", false) })
+				}
+			}
+		}
+	}
+	s.Extra["gps_dst_transitions_probed"] = nTr
+	s.Exhaustive("gps DST: every offset transition of Europe/Amsterdam, America/New_York, Australia/Lord_Howe, Africa/Casablanca in 2016 and 2021 (thorough: 2005..2026): every 10 minutes from -70 to +70 minutes, +-1 ns, and the ends of the repeated/skipped local hour, presented in that zone")
 	qD := func(d time.Duration, kind string) { jobs = append(jobs, func() { durCase(s, d, kind) }) }
 	qM := func(t1, t2 time.Time, kind string) {
 		t1, t2 = t1.In(zs[r.Intn(len(zs))]), t2.In(zs[r.Intn(len(zs))])
@@ -410,7 +495,7 @@ func historyCases(s *cases.Set, r *cq.RNG, thorough bool) {
 		probes = append(probes, func() string { return time.Time(gps.NewTimeFromTimeSinceGPSEpoch(d)).Format(time.RFC3339Nano) })
 	}
 	addT := func(t time.Time) {
-		t = t.In(zones()[r.Intn(len(zoneOffsets)+2)])
+		t = t.In(zones()[r.Intn(len(zones()))])
 		names = append(names, "utc="+t.UTC().Format(time.RFC3339Nano)+" presented as "+t.Format(time.RFC3339Nano))
 		probes = append(probes, func() string { return strconv.FormatInt(int64(gps.Time(t).TimeSinceGPSEpoch()), 10) })
 	}
@@ -736,16 +821,153 @@ func sensCases(s *cases.Set, r *cq.RNG, thorough bool) {
 	}
 }
 
+// ---- process time zone ------------------------------------------------------------------
+// The conversions must not depend on the zone of the process (time.Local).  The same binary is run as a child
+// with TZ set; it reads probes on stdin and prints the raw answers.
+
+func childMain() {
+	in := bufio.NewScanner(os.Stdin)
+	in.Buffer(make([]byte, 1<<20), 1<<20)
+	out := bufio.NewWriter(os.Stdout)
+	defer out.Flush()
+	for in.Scan() {
+		f := strings.Fields(in.Text())
+		switch {
+		case len(f) == 2 && f[0] == "D":
+			d, _ := strconv.ParseInt(f[1], 10, 64)
+			fmt.Fprintf(out, "%d\n", time.Time(gps.NewTimeFromTimeSinceGPSEpoch(time.Duration(d))).UnixNano())
+		case len(f) == 3 && f[0] == "T":
+			sec, _ := strconv.ParseInt(f[1], 10, 64)
+			ns, _ := strconv.ParseInt(f[2], 10, 64)
+			t := time.Unix(sec, ns) // located in the child's time.Local
+			fmt.Fprintf(out, "%d %d\n", int64(gps.Time(t.UTC()).TimeSinceGPSEpoch()), int64(gps.Time(t).TimeSinceGPSEpoch()))
+		}
+	}
+	_, off := time.Unix(1483250400, 0).Zone()
+	fmt.Fprintf(out, "zone %s %d\n", time.Local.String(), off)
+}
+
+var childTZs = []string{"UTC", "Asia/Tokyo", "America/Los_Angeles", "Pacific/Kiritimati", "Etc/GMT+12", "Europe/Amsterdam"}
+
+func processZoneCases(s *cases.Set, r *cq.RNG, thorough bool) {
+	// probes: every leap step +- {0, 1 s, 1 h, 6 h, 9 h, 12 h, 14 h, 24 h} and +-1 ns, plus seeded random instants
+	var durs []time.Duration
+	var insts []time.Time
+	hours := []time.Duration{0, time.Second, time.Hour, 6 * time.Hour, 9 * time.Hour, 12 * time.Hour, 14 * time.Hour, 24 * time.Hour}
+	for i, st := range steps() {
+		S := time.Unix(st, 0).UTC()
+		G := time.Duration((st-gpsEpoch.Unix())+int64(i)+1) * time.Second // GPS duration at UTC S (after the inserted second)
+		for _, h := range hours {
+			for _, sg := range []time.Duration{-1, 1} {
+				if h == 0 && sg == 1 {
+					continue
+				}
+				for _, e := range []time.Duration{-1, 0, 1} {
+					durs = append(durs, G+sg*h+e)
+					insts = append(insts, S.Add(sg*h+e))
+				}
+			}
+		}
+	}
+	n := 300
+	if thorough {
+		n = 5000
+	}
+	lo := gpsEpoch.Unix()
+	hi := time.Date(2101, 1, 1, 0, 0, 0, 0, time.UTC).Unix()
+	for i := 0; i < n; i++ {
+		durs = append(durs, time.Duration(r.U64()%uint64(hi-lo))*time.Second+time.Duration(r.U64()%1000000000))
+		insts = append(insts, time.Unix(lo+int64(r.U64()%uint64(hi-lo)), int64(r.U64()%1000000000)).UTC())
+	}
+	// this process: answers are compared with the model in Coq (ordinary cases) ...
+	var input bytes.Buffer
+	wantD := make([]int64, len(durs))
+	wantT := make([]int64, len(insts))
+	for i, d := range durs {
+		wantD[i] = time.Time(gps.NewTimeFromTimeSinceGPSEpoch(d)).UnixNano()
+		fmt.Fprintf(&input, "D %d\n", int64(d))
+		if i < 18*45 {
+			durCase(s, d, "gps-dur-leap-step-hours")
+		}
+	}
+	for i, t := range insts {
+		wantT[i] = int64(gps.Time(t).TimeSinceGPSEpoch())
+		fmt.Fprintf(&input, "T %d %d\n", t.Unix(), t.Nanosecond())
+		if i < 18*45 {
+			utcCase(s, t.In(zones()[r.Intn(len(zones()))]), "gps-utc-leap-step-hours", false)
+		}
+	}
+	// ... and every child process must give the same answers
+	exe, err := os.Executable()
+	zonesSeen := map[string]string{}
+	for _, tz := range childTZs {
+		fails := 0
+		bad := func(probe, what string, rp map[string]interface{}) {
+			if fails < 12 {
+				fails++
+				rp["api"] = "gps conversions in a process with TZ=" + tz
+				rp["how"] = "TZ=" + tz + " <harness> --child, probes on stdin (D <ns> | T <unix s> <ns>)"
+				s.Fail(cases.GoFail{Key: "process-timezone:" + tz + ":" + probe, What: what, Replay: rp})
+			}
+		}
+		var outb []byte
+		if err == nil {
+			cmd := exec.Command(exe, "--child")
+			cmd.Env = append(os.Environ(), "TZ="+tz)
+			cmd.Stdin = bytes.NewReader(input.Bytes())
+			outb, err = cmd.Output()
+		}
+		lines := strings.Split(strings.TrimSpace(string(outb)), "\n")
+		if err != nil || len(lines) != len(durs)+len(insts)+1 {
+			bad("child-failed", fmt.Sprintf("child process with TZ=%s did not answer all probes: %v", tz, err), map[string]interface{}{"lines": len(lines)})
+			err = nil
+			continue
+		}
+		zonesSeen[tz] = lines[len(lines)-1]
+		for i, d := range durs {
+			got, _ := strconv.ParseInt(lines[i], 10, 64)
+			if got != wantD[i] {
+				bad(fmt.Sprintf("gps-duration=%d", int64(d)), fmt.Sprintf("NewTimeFromTimeSinceGPSEpoch(%d ns) depends on the time zone of the process: %s with TZ=%s, %s here", int64(d),
+					time.Unix(0, got).UTC().Format(time.RFC3339Nano), tz, time.Unix(0, wantD[i]).UTC().Format(time.RFC3339Nano)),
+					map[string]interface{}{"since_gps_epoch_ns": int64(d), "observed_unix_ns_in_child": got, "observed_unix_ns_here": wantD[i]})
+			}
+		}
+		for i, t := range insts {
+			f := strings.Fields(lines[len(durs)+i])
+			for k, pres := range []string{"utc-presented", "local-presented"} {
+				got := int64(-1)
+				if k < len(f) {
+					got, _ = strconv.ParseInt(f[k], 10, 64)
+				}
+				if got != wantT[i] {
+					bad(fmt.Sprintf("utc=%s:%s", t.Format(time.RFC3339Nano), pres), fmt.Sprintf("TimeSinceGPSEpoch(%s) depends on the time zone of the process: %d ns with TZ=%s (%s), %d ns here", t.Format(time.RFC3339Nano), got, tz, pres, wantT[i]),
+						map[string]interface{}{"utc": t.Format(time.RFC3339Nano), "observed_ns_in_child": got, "observed_ns_here": wantT[i]})
+				}
+			}
+		}
+	}
+	s.Extra["process_timezone_probes"] = len(durs) + len(insts)
+	s.Extra["process_timezone_children"] = zonesSeen
+	here, off := time.Now().Zone()
+	s.Extra["process_timezone_of_this_run"] = fmt.Sprintf("%s %s(%+ds)", time.Local.String(), here, off)
+	s.Exhaustive("gps process zone: every leap step +- {0, 1 s, 1 h, 6 h, 9 h, 12 h, 14 h, 24 h} +- 1 ns in both directions plus random instants, answered by child processes with TZ=UTC, Asia/Tokyo, America/Los_Angeles, Pacific/Kiritimati, Etc/GMT+12, Europe/Amsterdam and compared with this process (whose answers are compared with the model)")
+}
+
 func main() {
+	if len(os.Args) > 1 && os.Args[1] == "--child" {
+		childMain()
+		return
+	}
 	dir, seed, thorough := cases.Args()
 	r := cq.NewRNG(seed)
 	s := cases.New("C20", dir, "LW.Corr.C20",
-		"GPS: UTC instants / GPS durations / pairs, dense around each published leap second and random over 1980..2100 at ns resolution, each instant presented in a seeded-random Location (UTC, fixed zones -14h,-12h,-5h,-1s,+1s,+1h,+5:30,+12:45,+14h, time.Local) and densely around each leap step +- the zone offset, in deliberate and seeded-random call orders; airtime: rows of 256 payload sizes per parameter set (symbol counts exhaustive), single calls incl. out-of-domain; EIRP: all 256 indices, powers at/next to/between table entries and random float32; sensitivity samples. Every case is non-trivial except EIRP indices > 16 (all rejected alike); distinct = distinct printed case")
+		"GPS: UTC instants / GPS durations / pairs, dense around each published leap second and random over 1980..2100 at ns resolution, each instant presented in a seeded-random Location (UTC, fixed zones -14h,-12h,-5h,-1s,+1s,+1h,+5:30,+12:45,+14h, time.Local, and the DST zones Europe/Amsterdam, America/New_York, Australia/Lord_Howe, Africa/Casablanca) and densely around each leap step +- the zone offset and through the DST transitions of those zones, the same probes answered by child processes under other TZ settings, in deliberate and seeded-random call orders; airtime: rows of 256 payload sizes per parameter set (symbol counts exhaustive), single calls incl. out-of-domain; EIRP: all 256 indices, powers at/next to/between table entries and random float32; sensitivity samples. Every case is non-trivial except EIRP indices > 16 (all rejected alike); distinct = distinct printed case")
 	gpsCases(s, r.Fork(), thorough)
 	airtimeCases(s, r.Fork(), thorough)
 	eirpCases(s, r.Fork(), thorough)
 	sensCases(s, r.Fork(), thorough)
 	historyCases(s, r.Fork(), thorough)
+	processZoneCases(s, r.Fork(), thorough)
 	if err := s.Finish(); err != nil {
 		fmt.Fprintln(os.Stderr, err)
 		os.Exit(2)
